@@ -1,50 +1,42 @@
 (* C03 — Crash safety: recovery yields a prefix that contains everything acknowledged.
    Pinned statements only; proofs are in Proofs/CrashBase.v, CrashJournal.v, CrashSteps.v,
-   CrashRecover.v, CrashSpec.v, CrashPrefix.v, CrashFacts.v. The crash model is
-   [crash_image] of Model/Sys.v: every file keeps at least its synced prefix and at most
-   what was written, cut at any byte, or zero-filled from a record boundary.
+   CrashRecover.v, CrashSpec.v, CrashPrefix.v, CrashFacts.v, CrashSuffix.v, CrashRemoved.v,
+   CrashPurged.v. The crash model is [crash_image] of Model/Sys.v: the set of files is the
+   current one, every file keeps at least its synced prefix and at most what was written,
+   cut at any byte, or zero-filled from a record boundary.
 
-   The full statement (NOT proved, not known to be false) is
-
-     forall cfg cfg' z d',
-       zreach cfg z -> hist_wf z -> PL.hist_legal z -> crash_image z d' ->
-       ~ gap_class d' -> c_truncate cfg' = true ->
-       exists y' k sp, open_dir cfg' d' = OpenOk y' /\
-         (acked z <= k)%nat /\ (k <= issued z)%nat /\
-         nth_error (ref_states (PL.hist z)) k = Some sp /\
-         m_rs (k_sm (y_core y')) = spec_state sp /\
-         map f_log (m_log (k_sm (y_core y'))) = map g_ent (sp_entries sp).
-
-   ("whenever the store can be opened afterwards": images in gap_class are the ones that
-   do not open, finding F3 of C05.)  What is proved adds one hypothesis: the first chunk
-   file is still present in the image, i.e. no chunk file has been physically removed yet
-   (purge calls and purge records are allowed).  The name says so. *)
+   "Whenever the store can be opened afterwards": the images in gap_class are exactly the
+   ones that do not open (finding F3 of C05, an older file stops short of the next file's
+   name); for every other image the theorem shows that open succeeds AND what it yields. *)
 From Coq Require Import List NArith.
 From RaftLog Require Import Base.Bytes Model.Types Model.Cache Model.Core Model.Recover Model.Run Model.Sys.
 From RaftLog Require Import Spec.Spec Spec.Hist Spec.Durable.
-From RaftLog Require Import Proofs.Refine Proofs.CrashSteps Proofs.CrashRecover Proofs.CrashSpec Proofs.CrashPrefix Proofs.CrashFacts.
+From RaftLog Require Import Proofs.Refine Proofs.CrashSteps Proofs.CrashRecover Proofs.CrashSpec Proofs.CrashPrefix
+  Proofs.CrashFacts Proofs.CrashPurged.
 Import ListNotations.
 
-(* For EVERY reachable state of the caller/worker/file-system system (any interleaving,
-   batching, injected failures, worker death; crash between or inside calls of both
-   threads) and EVERY crash image of it: the directory opens and the recovered store shows
-   exactly the reference-log state after the first k journalled records, where k is at
-   least the number of records journalled before any flush whose callback has reported
-   success and at most the number journalled so far.  The Raft state equals the reference
-   state and the index lists exactly its entries: nothing acknowledged is forgotten and
+(* For EVERY reachable state of the caller/worker/file-system system (any history of
+   well-formed, Raft-legal writes, any interleaving, batching, rotation, purge with physical
+   removal of chunk files, injected write/sync/unlink failures, worker death; the crash may
+   fall between or inside calls of both threads) and EVERY crash image of it: the
+   directory opens and the recovered store shows exactly the reference-log state after the
+   first k journalled records, where k is at least the number of records journalled before
+   any flush whose callback has reported success (acked) and at most the number journalled
+   so far (issued).  The Raft state equals the reference state and the index lists exactly
+   its entries: nothing acknowledged is forgotten, nothing that was not issued appears, and
    no partially written record is visible. *)
-Theorem C03_prefix_no_purge_partial : forall cfg cfg' z d',
+Theorem C03_prefix : forall cfg cfg' z d',
   zreach cfg z -> hist_wf z -> PL.hist_legal z -> crash_image z d' ->
-  ~ gap_class d' -> hd_error (map f_id d') = Some 0%N -> c_truncate cfg' = true ->
+  ~ gap_class d' -> c_truncate cfg' = true ->
   exists y' k sp, open_dir cfg' d' = OpenOk y' /\
     (acked z <= k)%nat /\ (k <= issued z)%nat /\
     nth_error (ref_states (PL.hist z)) k = Some sp /\
     m_rs (k_sm (y_core y')) = spec_state sp /\
     map f_log (m_log (k_sm (y_core y'))) = map g_ent (sp_entries sp).
-Proof. exact CrashFacts.C03_prefix_no_purge_partial. Qed.
+Proof. exact CrashPurged.C03_prefix. Qed.
 
 (* the hypotheses are met by a reachable state with an acknowledged flush, a rotation and
-   a crash image that tears the last record; the conclusion for it *)
+   a crash image that tears the last record (no chunk removed) ... *)
 Theorem C03_nonvacuous :
   zreach ex_cfg ex_z /\ hist_wf ex_z /\ PL.hist_legal ex_z /\ crash_image ex_z ex_d /\
   ~ gap_class ex_d /\ hd_error (map f_id ex_d) = Some 0%N /\ c_truncate ex_cfg = true /\
@@ -53,5 +45,17 @@ Theorem C03_nonvacuous :
   map (fun f => length (f_data f)) ex_d = [74; 75]%nat.
 Proof. exact CrashFacts.C03_nonvacuous. Qed.
 
-Print Assumptions C03_prefix_no_purge_partial.
+(* ... and by one in which chunk 0 has been created, purged and physically removed (the
+   only file left is chunk 114), four records are acknowledged, a fifth is torn *)
+Theorem C03_nonvacuous_purged :
+  zreach pex_cfg pex_z /\ hist_wf pex_z /\ PL.hist_legal pex_z /\ crash_image pex_z pex_d /\
+  ~ gap_class pex_d /\ c_truncate pex_cfg = true /\
+  In 0%N (g_created (z_ghost pex_z)) /\ map f_id (z_disk pex_z) = [114%N] /\ map f_id pex_d = [114%N] /\
+  acked pex_z = 4%nat /\ issued pex_z = 5%nat /\
+  map (fun f => length (f_data f)) (z_disk pex_z) = [90]%nat /\
+  map (fun f => length (f_data f)) pex_d = [87]%nat.
+Proof. exact CrashPurged.C03_prefix_nonvacuous_purged. Qed.
+
+Print Assumptions C03_prefix.
 Print Assumptions C03_nonvacuous.
+Print Assumptions C03_nonvacuous_purged.
